@@ -49,7 +49,7 @@ fn crash_owner(prop: &str, op: &Value) -> String {
 fn budget(_prop: &str, tier: Tier) -> u64 {
     match tier {
         Tier::Quick => 40_000,
-        Tier::Thorough => 1_200_000,
+        Tier::Thorough => 800_000,
     }
 }
 
@@ -128,7 +128,7 @@ const NAMES: &[&str] = &["a", "Sub", "S2", "x y", "名", ".hid", "d.e", "m", "@E
 const FILES: &[&str] = &["one.bin", "two.txt", "f.bin.lz", "g.cmp", "h.cms", "q.bin", "t.txt.lz", "データ.bin", "e_one.bin", "noext"];
 const PATTERNS: &[Option<&str>] = &[None, Some("*"), Some("*.bin"), Some("*/*"), Some("**/*.txt"), Some("**/*.bin.lz"), Some("S*/*"), Some("?.bin")];
 
-fn gen_cfg(prop: &str, _tier: Tier, run_seed: u64) -> Value {
+fn gen_cfg(prop: &str, tier: Tier, run_seed: u64) -> Value {
     let mut r = Rng::sub(run_seed, "cfg");
     let layers = r.range(1, 4);
     let nh = r.range(1, 3);
@@ -149,7 +149,8 @@ fn gen_cfg(prop: &str, _tier: Tier, run_seed: u64) -> Value {
         handles.push(HandleCfg { stack: pool, game, lang, spelling });
     }
     let swarm: Vec<u32> = (0..10).map(|_| *r.pick(&[0u32, 1, 1, 1, 2, 3])).collect();
-    let cfg = Cfg { layers, handles, faulty: r.chance(1, 2), max_ops: r.range(10, 80), swarm };
+    let ops_hi = if tier == Tier::Thorough && r.chance(1, 4) { 200 } else { 80 };
+    let cfg = Cfg { layers, handles, faulty: r.chance(1, 2), max_ops: r.range(10, ops_hi), swarm };
     serde_json::to_value(cfg).unwrap()
 }
 
